@@ -491,6 +491,48 @@ class _SpliceCalls(ast.NodeTransformer):
         return node
 
 
+def _splice_dict_temps(tree: ast.AST) -> None:
+    """`kw = {"a": x, "b": y}` (assigned once, used once, as `f(..., **kw)`) reads `f(..., a=x, b=y)`: keyword arguments assembled in a
+    dict literal first."""
+    for fn in ast.walk(tree):
+        if not isinstance(fn, (ast.FunctionDef, ast.AsyncFunctionDef)):
+            continue
+        uses: Dict[str, int] = {}
+        for n in ast.walk(fn):
+            if isinstance(n, ast.Name):
+                uses[n.id] = uses.get(n.id, 0) + 1
+        defs = {}
+        for holder in ast.walk(fn):
+            for fld in ("body", "orelse", "finalbody"):
+                v = getattr(holder, fld, None)
+                if isinstance(v, list):
+                    for st in v:
+                        if isinstance(st, ast.Assign) and len(st.targets) == 1 and isinstance(st.targets[0], ast.Name) and isinstance(st.value, ast.Dict) \
+                                and st.value.keys and all(isinstance(k, ast.Constant) and isinstance(k.value, str) and k.value.isidentifier() for k in st.value.keys) \
+                                and uses.get(st.targets[0].id) == 2:
+                            defs[st.targets[0].id] = (v, st)
+        if not defs:
+            continue
+        done = set()
+        for c in ast.walk(fn):
+            if isinstance(c, ast.Call):
+                new_kw = []
+                for k in c.keywords:
+                    if k.arg is None and isinstance(k.value, ast.Name) and k.value.id in defs and k.value.id not in done:
+                        d = defs[k.value.id][1].value
+                        new_kw += [ast.keyword(arg=kk.value, value=vv) for kk, vv in zip(d.keys, d.values)]
+                        done.add(k.value.id)
+                    else:
+                        new_kw.append(k)
+                c.keywords = new_kw
+        for nm in done:
+            body, st = defs[nm]
+            if st in body:
+                body.remove(st)
+                if not body:
+                    body.append(ast.Pass())
+
+
 def canon_compare(tree: ast.AST, modname: str = "") -> ast.AST:
     tree = _CanonCompare().visit(tree)
     _inline_return_temps(tree)
@@ -502,8 +544,9 @@ def canon_compare(tree: ast.AST, modname: str = "") -> ast.AST:
         if expand_module(tree, modname):
             ast.fix_missing_locations(tree)
             _unroll_const_loops(tree)          # a loop over constant names whose body became visible by the expansion
-            _SpliceCalls().visit(tree)
             _inline_return_temps(tree)
+        _splice_dict_temps(tree)
+        _SpliceCalls().visit(tree)
     return ast.fix_missing_locations(tree)
 
 
